@@ -3,7 +3,7 @@
 From Verif Require Import Base.Prelude Base.StrUtil Base.Index Base.NdArr Model.MapSpec Model.MapSpecSpec Model.MapRun
   Model.MapDenote Model.SymBody Model.RunInfoCodec Model.FSStore Corr.Run_C04 Corr.Valid_C04
   Proofs.StrFacts Proofs.IndexFacts Proofs.MapSpecFacts Proofs.MapSpecShape Proofs.MapSpecParse Proofs.ListFacts
-  Proofs.RunInfoFacts Proofs.FSStoreFacts Proofs.ReloadFacts.
+  Proofs.PlaceFacts Proofs.SelectFacts Proofs.MapRunFacts Proofs.RunInfoFacts Proofs.FSStoreFacts Proofs.ReloadFacts.
 
 (* ================================================================================================= *)
 (* 1. sorted(set(...))                                                                                *)
@@ -884,4 +884,37 @@ Lemma run_info_of_run_wf : forall c f, finish false c = Ok f -> valid_request c 
 Proof.
   intros c f Hfin Hv. pose proof (finished_consistent_holds c f Hfin Hv) as H.
   unfold finished_consistent, run_consistentb in H. do 6 (apply andb_true_iff in H as [H _]). exact H.
+Qed.
+
+(* with C01 (Proofs/MapRunFacts.v map_run_denotes): what reloads is the denotation of the request *)
+Lemma find_map_fst {A B} (g : A -> str * B) (h : A -> str) (l : list A) o :
+  (forall x, fst (g x) = h x) ->
+  find (fun y => str_eqb (fst y) o) (map g l) = option_map g (find (fun x => str_eqb (h x) o) l).
+Proof.
+  intros Hg. induction l as [|x l IH]; [reflexivity|]. cbn [map find]. rewrite Hg.
+  destruct (str_eqb (h x) o); [reflexivity|exact IH].
+Qed.
+
+Lemma reload_eq_denotation : forall c f d live fn o,
+  finish false c = Ok f -> valid_request c = true ->
+  denote_run sym_body (c_funcs c) (c_inputs c) (c_internal c) = Ok d ->
+  In fn (c_funcs c) -> In o (fouts fn) -> kind_persists c fn = true ->
+  let w := {| w_root := root_name; w_files := w_files (f_world f); w_live := live |} in
+  exists o' v, find (fun y => str_eqb (fst y) o) (d_out d) = Some (o', v)
+               /\ load_outputs version_name w o = Ok (Some (PVal v), w).
+Proof.
+  intros c f d live fn o Hfin Hv Hden Hfn Ho Hk w.
+  destruct (reload_eq_results_full c f live fn o Hfin Hv Hfn Ho Hk) as [o' [ret [stored [Hfind Hload]]]].
+  exists o', stored. split; [|exact Hload].
+  assert (Hreq : request_ok (c_funcs c) (c_inputs c) = true).
+  { unfold valid_request in Hv. do 4 (apply andb_true_iff in Hv as [Hv _]). exact Hv. }
+  destruct (map_run_denotes sym_body sym_body_arity (c_internal c) (c_funcs c) (c_inputs c) d Hreq Hden) as [st [Hrun [_ Hsto]]].
+  assert (Est : f_state f = st).
+  { unfold finish in Hfin. rewrite Hrun in Hfin. cbn [bind] in Hfin.
+    destruct (create_run_info _ _ _ _ _ _ _ _); [|discriminate]. cbn [bind] in Hfin.
+    destruct (outs_of_run _ _ _); [|discriminate]. cbn [bind] in Hfin.
+    destruct (world_of _ _ _ _ _ _ _); [|discriminate]. cbn [bind] in Hfin. now injection Hfin as <-. }
+  rewrite Est in Hfind. rewrite <- Hsto.
+  rewrite (find_map_fst (fun x : str * val * val => (fst (fst x), snd x)) (fun x => fst (fst x))) by reflexivity.
+  now rewrite Hfind.
 Qed.
